@@ -408,6 +408,26 @@ pub fn outer_context(err: &ExecutionError) -> OuterContext {
             node_kind: c[8].to_string(),
         });
     }
+    if out.is_empty() {
+        // the derived Debug rendering is not an interface: fall back on the message text
+        // `Error executing S at (r, c) in stanza at (r, c) matching (KIND) node at (r, c)[ and executing ...]`
+        let text = format!("{}", err);
+        let head = text.split(". Caused by").next().unwrap_or("");
+        let re2 = regex::Regex::new(r"(?:Error executing|and executing) (.*?) at \((\d+), (\d+)\) in stanza at \((\d+), (\d+)\) matching \(([^)]*)\) node at \((\d+), (\d+)\)").unwrap();
+        for c in re2.captures_iter(head) {
+            let n = |i: usize| c[i].parse::<usize>().ok().and_then(|x| x.checked_sub(1)).unwrap_or(usize::MAX);
+            out.push(StmtCtx {
+                statement: c[1].to_string(),
+                statement_location: Pos { row: n(2), column: n(3) },
+                stanza_location: Pos { row: n(4), column: n(5) },
+                source_location: Pos { row: n(7), column: n(8) },
+                node_kind: c[6].to_string(),
+            });
+        }
+        if out.is_empty() {
+            harness_error(format!("C20: cannot read the statement contexts of an error, neither from Debug nor from the message: {}", text));
+        }
+    }
     OuterContext::Statement(out)
 }
 
